@@ -31,6 +31,95 @@ theorem token_values :
     decOfToken "22.5".toList = ⟨false, 225, -1⟩ := by
   decide
 
+/-- **Literal value.**  For every literal written as [sign] digits [. digits] [e|E [sign] digits]
+    (or [sign] . digits …), with an exponent marker that is not a digit or a dot, the token is read as
+    (−1)^neg · (all digits as one number) · 10^(written exponent − number of fraction digits) -/
+theorem decOfToken_literal (l : Lit) (h : l.Digits) : decOfToken l.chars = l.value := by
+  obtain ⟨neg, ip, fp, ex⟩ := l
+  obtain ⟨hip, hfp, hex, hbare⟩ := h
+  simp only at hip hfp hex hbare
+  -- no digit is a sign or a dot
+  have hds : ∀ c, isDigit c = true → c ≠ '-' ∧ c ≠ '+' ∧ c ≠ '.' := by
+    intro c hc
+    refine ⟨?_, ?_, ?_⟩ <;> (rintro rfl; revert hc; decide)
+  -- the sign is stripped when a digit or a '.' follows
+  have hsign : ∀ (c : Char) (r : List Char), c ≠ '-' → c ≠ '+' →
+      stripSign (signChars neg ++ c :: r) = (neg == some true, c :: r) := by
+    intro c r h1 h2
+    rcases neg with _ | (_ | _)
+    · simp only [signChars, List.nil_append]
+      unfold stripSign
+      split <;> simp_all
+    · simp [signChars, stripSign]
+    · simp [signChars, stripSign]
+  -- exponent part
+  have hexp : ∀ (e : Char) (s : Option Bool) (d : List Char), ex = some (e, s, d) →
+      expOf (e :: (signChars s ++ d)) = (match s with | some true => -(natOfDigits d : Int) | _ => (natOfDigits d : Int)) := by
+    intro e s d he
+    obtain ⟨_, _, hd, hne⟩ := hex e s d he
+    rcases s with _ | (_ | _)
+    · obtain ⟨c, d', rfl⟩ := hne rfl
+      have := hds c (hd c (by simp))
+      simp only [signChars, List.nil_append]
+      unfold expOf
+      split <;> simp_all
+    · simp [signChars, expOf]
+    · simp [signChars, expOf]
+  -- the body after the sign, computed by decBody
+  have hbody : ∀ b : Bool, decBody b (ip ++ (fracChars fp ++ expChars ex)) =
+      { neg := b, mant := natOfDigits (ip ++ fp.getD []),
+        exp := expVal ex - ((fp.getD []).length : Int) } := by
+    intro b
+    rcases fp with _ | f
+    · rcases ex with _ | ⟨e, s, d⟩
+      · have := takeWhile_digits ip [] hip (Or.inl rfl)
+        simp only [fracChars, expChars, List.append_nil] at this ⊢
+        simp [decBody, this.1, this.2, expOf, expVal]
+      · obtain ⟨hed, hedot, _, _⟩ := hex e s d rfl
+        have := takeWhile_digits ip (e :: (signChars s ++ d)) hip (Or.inr ⟨e, _, rfl, hed⟩)
+        simp only [fracChars, expChars, List.nil_append]
+        unfold decBody
+        simp only [this.1, this.2]
+        split
+        · rename_i r heq; simp at heq; exact absurd heq.1 hedot
+        · simp only [Option.getD_none, List.append_nil, List.length_nil, hexp e s d rfl]
+          rcases s with _ | (_ | _) <;> simp [expVal]
+    · have hf := hfp f rfl
+      rcases ex with _ | ⟨e, s, d⟩
+      · have h1 := takeWhile_digits ip ('.' :: f) hip (Or.inr ⟨'.', f, rfl, by decide⟩)
+        have h2 := takeWhile_digits f [] hf (Or.inl rfl)
+        simp only [fracChars, expChars, List.append_nil] at h1 h2 ⊢
+        unfold decBody
+        simp [h1.1, h1.2, h2.1, h2.2, expOf, expVal]
+      · obtain ⟨hed, _, _, _⟩ := hex e s d rfl
+        have h1 := takeWhile_digits ip ('.' :: (f ++ e :: (signChars s ++ d))) hip (Or.inr ⟨'.', _, rfl, by decide⟩)
+        have h2 := takeWhile_digits f (e :: (signChars s ++ d)) hf (Or.inr ⟨e, _, rfl, hed⟩)
+        simp only [fracChars, expChars, List.cons_append] at h1 ⊢
+        unfold decBody
+        simp only [h1.1, h1.2, h2.1, h2.2, Option.getD_some, hexp e s d rfl]
+        rcases s with _ | (_ | _) <;> simp [expVal]
+  -- first character after the sign: a digit, or the '.' when there are no integer digits
+  obtain ⟨c, r, hcr, hc1, hc2⟩ : ∃ c r, ip ++ (fracChars fp ++ expChars ex) = c :: r ∧ c ≠ '-' ∧ c ≠ '+' := by
+    rcases ip with _ | ⟨a, ip'⟩
+    · obtain ⟨f, rfl⟩ := hbare rfl
+      exact ⟨'.', f ++ expChars ex, by simp [fracChars], by decide, by decide⟩
+    · have := hds a (hip a (by simp))
+      exact ⟨a, ip' ++ (fracChars fp ++ expChars ex), rfl, this.1, this.2.1⟩
+  unfold decOfToken Lit.chars
+  simp only
+  rw [hcr, hsign c r hc1 hc2]
+  simp only
+  rw [← hcr, hbody]
+  rfl
+
+/-- non-vacuity: `-0.25e+3` as a structured literal -/
+example : (⟨some true, ['0'], some ['2', '5'], some ('e', some false, ['3'])⟩ : Lit).chars = "-0.25e+3".toList ∧
+    (⟨some true, ['0'], some ['2', '5'], some ('e', some false, ['3'])⟩ : Lit).Digits := by
+  refine ⟨by decide, ?_⟩
+  refine ⟨by decide, ?_, ?_, by simp⟩
+  · intro f hf; simp at hf; subst hf; decide
+  · intro e s d h; simp at h; obtain ⟨rfl, rfl, rfl⟩ := h; refine ⟨by decide, by decide, by decide, by simp⟩
+
 /-- **Row round trip.**  A grid row written as: optional leading blanks/tabs, number tokens in any
     legal notation separated by non-empty runs of blanks/tabs, optional trailing blanks / CR,
     optionally followed by a `#` comment — is recognised as a grid line and contributes exactly one
